@@ -55,6 +55,12 @@ check("C03", "exploration",
       "model-based property testing (rapid): conservation invariant over generated histories, in virtual time with a quiescence oracle",
       "DESIGN.md §4 C03, §3.5")
 
+check("C08", "exploration",
+      "The decision x strategy x failure-site x tree-shape matrix is generated; after every operation the real runtime (settled in virtual time) is compared with a reference model of the supervision effect table: consultations, failure events, live set, incarnations, touched actors, delivery count, state counter.",
+      "Exact for single failures and escalation chains; a case is no longer judged from its first cascade / concurrent failure on (outcome depends on the scheduler). Sampling of the matrix, class histogram per (decision, strategy) cell in evidence.",
+      "model-based property testing (rapid): reference model of the supervision effect table vs the real runtime, sequentially settled in virtual time",
+      "DESIGN.md §4 C08")
+
 NOT_YET = {}
 
 def main():
